@@ -480,7 +480,8 @@ def iterator_rules(run, F, E):
                 ok = all(sm.ret == Elem('tasks._items', Sym('curr')) and not sm.stores for dec, sm in paths)
                 run.ob('C10.d', '%s::%s denotes the task at the position' % (tk, fn.m), ok, where=fn.pat, detail=repr([m.ret for d, m in paths]),
                        key='%s::%s denotes another task' % (tk, fn.m))
-            if fn.kind == 'ctor' and not fn.d.get('implicit') and fn.params:
+            if fn.kind == 'ctor' and not fn.d.get('implicit') and fn.params and fn.d.get('ctorkind') not in ('copy', 'move'):
+                # (a hand-written copy of an iterator is a copy like any other: member coverage is C17.b's)
                 cap = cap_of(F, fn)
                 paths = explore(fn, ctor=True)
                 ok = len(paths) == 2
